@@ -24,9 +24,9 @@ ALIASES = {0: ['0', 'L', 'l', 0, False], 3: ['1', 'H', 'h', 1, True], 2: ['-', '
 @st.composite
 def bp_cases(draw, tier):
     ndim = draw(st.integers(1, 4))
-    pats = draw(st.one_of(st.integers(1, 40), st.sampled_from([1, 7, 8, 9, 15, 16, 17, 24, 33, 255, 256, 257])))
+    pats = draw(st.one_of(st.integers(1, 40), st.sampled_from([0, 1, 7, 8, 9, 15, 16, 17, 24, 33, 255, 256, 257])))      # also no pattern at all
     lead = draw(st.lists(st.integers(1, 3), min_size=max(0, ndim - 2), max_size=max(0, ndim - 2)))
-    sigs = draw(st.integers(1, 6))
+    sigs = draw(st.sampled_from([0, 1, 2, 3, 4, 5, 6]))
     shape = ([sigs] if ndim == 1 else lead + [sigs, pats])
     n = int(np.prod(shape))
     vals = draw(st.lists(st.integers(0, 7), min_size=n, max_size=n)) if n <= 2000 else \
@@ -147,7 +147,7 @@ DTYPES = ['uint8', 'int8', 'uint16', 'int16', 'uint32', 'int32', 'uint64', 'int6
 def bits_cases(draw, tier):
     dt = draw(st.sampled_from(DTYPES))
     info = np.iinfo(dt)
-    shape = draw(st.lists(st.integers(1, 4), min_size=1, max_size=3))
+    shape = draw(st.lists(st.sampled_from([0, 1, 2, 3, 4, 1, 2, 3, 4]), min_size=1, max_size=3))      # an axis may be empty
     n = int(np.prod(shape))
     vals = draw(st.lists(st.one_of(st.integers(int(info.min), int(info.max)),
                                    st.sampled_from([int(info.min), int(info.max), 0, 1, -1 if info.min < 0 else 2])),
